@@ -287,12 +287,12 @@ var sizes = map[string]batchSizes{
 }
 
 type runOutcome struct {
-	prior      map[int][]int // run index -> the indices the same node process executed before it
-	results    map[int]*PlanResult
-	finals     []*workerFinal
-	deaths     []death
-	wall       time.Duration
-	workers    int
+	prior   map[int][]int // run index -> the indices the same node process executed before it
+	results map[int]*PlanResult
+	finals  []*workerFinal
+	deaths  []death
+	wall    time.Duration
+	workers int
 }
 
 type death struct {
